@@ -715,6 +715,25 @@ def _n15(body: List[ast.stmt], stats) -> List[ast.stmt]:
     return out
 
 
+def _n17(body: List[ast.stmt], stats) -> List[ast.stmt]:
+    """N17  `with contextlib.suppress(E1, …): body`  ->  `try: body  except (E1, …): pass` (the documented meaning of suppress), so that every
+    rule about handlers sees the one form.  Only a single context item without `as`."""
+    out: List[ast.stmt] = []
+    for st in body:
+        if isinstance(st, ast.With) and len(st.items) == 1 and st.items[0].optional_vars is None and isinstance(st.items[0].context_expr, ast.Call):
+            c = st.items[0].context_expr
+            fn = c.func
+            name = fn.attr if isinstance(fn, ast.Attribute) and isinstance(fn.value, ast.Name) and fn.value.id == 'contextlib' else fn.id if isinstance(fn, ast.Name) else None
+            if name == 'suppress' and c.args and not c.keywords and not any(isinstance(a, ast.Starred) for a in c.args):
+                typ = c.args[0] if len(c.args) == 1 else ast.copy_location(ast.Tuple(elts=list(c.args), ctx=ast.Load()), c)
+                h = ast.copy_location(ast.ExceptHandler(type=typ, name=None, body=[ast.copy_location(ast.Pass(), st)]), st)
+                out.append(ast.copy_location(ast.Try(body=st.body, handlers=[h], orelse=[], finalbody=[]), st))
+                stats['N17'] = stats.get('N17', 0) + 1
+                continue
+        out.append(st)
+    return out
+
+
 def _n14(body: List[ast.stmt], stats) -> List[ast.stmt]:
     """N14  `d['a'], d['b'] = (x, y)` with plain names / constants on the right and at least one non-name target (what inlining a helper that
     returns a pair leaves behind)  ->  `d['a'] = x; d['b'] = y`.  Nothing on the right or in a later target may read a name stored earlier."""
@@ -780,6 +799,7 @@ def normalise(tree: ast.AST, ref: dict = None) -> Dict[str, int]:
             body = _n10(body, stats)
             body = _n14(body, stats)
             body = _n15(body, stats)
+            body = _n17(body, stats)
         body = [_n2(x, stats) for x in body]
         body = _n1(body, nested, stats)
         if in_loop and os.environ.get('VERIF_N3'):
